@@ -574,6 +574,32 @@ fn run_case(tier: Tier, fam: &str, idx: u64, t: &mut Tally) {
         }
         return;
     }
+    if fam == "denselen" {
+        // DENSE length sweep: 4 literals, ONE reference of every length the format can express
+        // in its first two forms (and the last hundred of the third), at displacement 1 and 4
+        let lens11: Vec<usize> = (3..=700usize).chain(65_700..=65_808).collect();
+        let lens10: Vec<usize> = (3..=18).collect();
+        let i = idx as usize;
+        let (kind, len) = if i < lens10.len() * 2 { (Kind::Lz10, lens10[i / 2]) } else { (Kind::Lz11, lens11[(i - lens10.len() * 2) / 2]) };
+        let d = if i % 2 == 0 { 1 } else { 4 };
+        let mut toks: Vec<Token> = (0..4).map(|k| Token::Lit(lit_at(k))).collect();
+        toks.push(Token::Ref { len, disp: d });
+        toks.push(Token::Lit(0xE7));
+        let total = 4 + len + 1;
+        let good = ref_lz::encode(&toks, kind, total, None);
+        t.cases += 1;
+        t.nontrivial += 1;
+        let entries: Vec<(Entry, Vec<u8>)> = match kind {
+            Kind::Lz10 => vec![(Entry::Lz10, good.clone()), (Entry::Lz10Enum, good.clone()), (Entry::Lz13, good.clone())],
+            Kind::Lz11 => vec![(Entry::Lz13, good.clone()), (Entry::Lz13Enum, wrap13(&good))],
+        };
+        for (e, bytes) in entries {
+            if let Some((sig, summary)) = check(e, &bytes, &format!("4 literals then a reference of length {} at displacement {}", len, d), t) {
+                t.violate(format!("{}:length-sweep", sig), summary, json!({"family": fam, "index": idx}));
+            }
+        }
+        return;
+    }
     if fam == "hist" {
         let all = history_streams();
         let n = all.len() as u64;
@@ -643,6 +669,7 @@ fn families(tier: Tier) -> Vec<Family> {
     f.push(Family::new("stored", stored_cases().len() as u64));
     f.push(Family::new("lz11huge", HUGE_REFS.len() as u64));
     f.push(Family::new("densedisp", 4096 * 7));
+    f.push(Family::new("denselen", 2 * (16 + 698 + 109)));
     let h = history_streams().len() as u64;
     f.push(Family::new("hist", h * h));
     f
